@@ -80,7 +80,7 @@ def cases(tier, seed):
     # --- point mass on springs over a plane
     for stiff in ("stiff", "soft"):
         for load in PM_LOADS:
-            for spring in ("force", "compliance"):
+            for spring in ("force", "compliance", "kelvin_voigt_u0"):
                 for n in (1, 3, 10):
                     add(kind="pm_plane", load=load, spring=spring, stiff=stiff, nsteps=n, opts="tight", verbose=(n != 1), places=P6 if thorough else P3)
     # --- rigid body arm
